@@ -91,7 +91,12 @@ def cmp_calibrate(ctx, drv, mb, q, sig, samples, previous, family="calib"):
                "samples": [[{"name": k, "data": farr_any(v)} for k, v in c.items() if v.dtype.kind in "fib" and np.all(np.isfinite(v.astype(np.float64)))] for c in conts]})
     prev_copy = copy.deepcopy(previous)
     try:
-        real = q.calibrate(samples, signature_key=sig, previous_calibration_result=previous)
+        # the dataset is any iterable: a list, a one-shot generator, an iterator (each sample must be consumed exactly once)
+        kind = ctx.rng.choice(["list", "list", "generator", "iterator"]) if ctx is not None and hasattr(ctx, "rng") else "list"
+        dataset = samples if kind == "list" else ((x for x in list(samples)) if kind == "generator" else iter(list(samples)))
+        if ctx is not None and kind != "list":
+            ctx.tag("dataset_" + kind)
+        real = q.calibrate(dataset, signature_key=sig, previous_calibration_result=previous)
         rr = ("ok", real)
     except Exception as e:  # noqa: BLE001
         rr = ("raise", type(e).__name__)
